@@ -26,13 +26,13 @@ def _jsonable(val: typ.Any) -> typ.Any:
         return val.decode("utf-8", "replace")
     if isinstance(val, dict):
         return {str(k): _jsonable(v) for k, v in val.items()}
+    if hasattr(val, '_asdict'):
+        return _jsonable(val._asdict())
     if isinstance(val, (list, tuple, set, frozenset)):
         items = list(val)
         if isinstance(val, (set, frozenset)):
             items = sorted(items, key=str)
         return [_jsonable(v) for v in items]
-    if hasattr(val, '_asdict'):
-        return _jsonable(val._asdict())
     if hasattr(val, 'isoformat'):
         return val.isoformat()
     if hasattr(val, 'value'):
